@@ -6,7 +6,8 @@ Driver entries of the lifecycle group (C09).
   life <cfg> tok tok …        cfg = cur | old | nolock | nonotify
      r s b t     run / reset / reboot (both stores) / teardown      (R S B T are read the same)
      a0 a1       let the thread leave its parking place and advance to the next one; the digit is
-                 what run_condition() returns if the thread is parked inside that call
+                 what run_condition() — or initialization_step() — returns if the thread is parked
+                 inside that call (the recursion ignores the result of initialization_step())
      F           (first token only) boot() fails to create the thread
      b1 b2       reboot() split at schedule point 6 (between `reset_ = true` and `run_ = false`, mutex held)
      u           spurious wake-up of the condition wait
